@@ -22,21 +22,22 @@ class Unextractable(Exception):
 
 
 class St:
-    __slots__ = ("know", "vars", "consts")
+    __slots__ = ("know", "vars", "consts", "moved")
 
-    def __init__(self, know=None, vars=None, consts=None):
+    def __init__(self, know=None, vars=None, consts=None, moved=False):
         self.know = dict(know or {})
         self.vars = dict(vars or {})
         self.consts = dict(consts or {})
+        self.moved = moved      # the cursor has advanced since the last loop head (on every path joined into this state)
 
     def copy(self):
-        return St(self.know, self.vars, self.consts)
+        return St(self.know, self.vars, self.consts, self.moved)
 
     def key(self):
         return (tuple(sorted(self.know.items())), tuple(sorted(self.vars.items())), tuple(sorted(self.consts.items())))
 
     def shift(self):
-        s = St(consts=self.consts)
+        s = St(consts=self.consts, moved=True)
         s.know = {k - 1: v for k, v in self.know.items() if k >= 1}
         s.vars = {n: o - 1 for n, o in self.vars.items() if o >= 1}
         return s
@@ -61,6 +62,7 @@ def join(a, b):
     s.know = {k: v for k, v in a.know.items() if b.know.get(k) == v}
     s.vars = {k: v for k, v in a.vars.items() if b.vars.get(k) == v}
     s.consts = {k: v for k, v in a.consts.items() if b.consts.get(k) == v}
+    s.moved = a.moved and b.moved
     return s
 
 
@@ -96,6 +98,9 @@ class Cursor:
         self.summaries = summaries or {}
         self.used_summaries = set()
         self.ordinals = {}
+        self.stalls = {}     # key -> (msg, where): loop paths that do not advance the cursor
+        self.loops_seen = {}
+        self._loop_ids = {}
 
     # ------------------------------------------------------------------ predicates on a char evaluated at '\n'
     def pred_at_newline(self, path):
@@ -631,7 +636,7 @@ class Cursor:
             return [("normal", st, None)]
         return [(kind, s, None if kind == "normal" else v) for kind, s, v in self.run(s_.get("e"), st)]
 
-    def loop(self, body, st):
+    def loop(self, body, st, check_progress=True):
         head = st
         for _ in range(12):
             outs = self.run(body, head)
@@ -642,14 +647,27 @@ class Cursor:
             head = new_head
         else:
             raise Unextractable("loop state does not stabilise")
-        outs = self.run(body, head)
+        h = head.copy()
+        h.moved = False
+        outs = self.run(body, h)
         res = []
         for kind, s, v in outs:
             if kind == "break":
+                s.moved = st.moved or s.moved
                 res.append(("normal", s, None))
             elif kind == "return":
+                s.moved = st.moved or s.moved
                 res.append((kind, s, v))
+            elif check_progress and not s.moved:
+                # a path goes round the loop without the cursor having advanced: nothing it tests has changed, so it goes round again
+                self.stalls.setdefault(self._loop_key(body), (f"a path through a scanning loop of {short(self.fn)} returns to the loop head without having consumed a character: the same character is tested again with the same answer, for ever", loc(body)))
+        self.loops_seen[self._loop_key(body)] = loc(body)
         return self.merge(res)
+
+    def _loop_key(self, body):
+        per_fn = self._loop_ids.setdefault(self.fn, {})
+        n = per_fn.setdefault(id(body), len(per_fn) + 1)
+        return f"{short(self.fn)}|loop#{n}"
 
     def for_loop(self, m, st):
         it = peel(m["scrut"]["args"][0]) if m["scrut"].get("k") == "Call" else None
@@ -699,7 +717,7 @@ class Cursor:
             else:
                 for c in walk(body):
                     pass
-                res += self.loop({"k": "Block", "stmts": [{"k": "Semi", "e": body}], "expr": {"k": "If", "cond": {"k": "Lit", "lit": {"t": "bool", "v": True}}, "then": {"k": "Block", "stmts": [], "expr": None}, "else": None}}, s) + [("normal", s.copy(), None)]
+                res += self.loop({"k": "Block", "stmts": [{"k": "Semi", "e": body}], "expr": {"k": "If", "cond": {"k": "Lit", "lit": {"t": "bool", "v": True}}, "then": {"k": "Block", "stmts": [], "expr": None}, "else": None}}, s, check_progress=False) + [("normal", s.copy(), None)]
         return self.merge(res)
 
     # ------------------------------------------------------------------ calls
@@ -732,7 +750,7 @@ class Cursor:
         for kind, s, v in outs:
             if kind in ("break", "continue"):
                 raise Unextractable(f"stray {kind} in {c}")
-            back = St(know=s.know, vars=st.vars, consts=st.consts)
+            back = St(know=s.know, vars=st.vars, consts=st.consts, moved=st.moved or s.moved)
             # variables of the caller that denoted cursor offsets are stale if the callee moved the cursor: drop them conservatively
             back.vars = {}
             res.append(("normal", back, v if (v and v[0] == "tag") else None))
